@@ -28,7 +28,71 @@ fn one(entry: usize, cp: u32) -> &'static str {
     }
 }
 
+const NAMES: [&str; 9] = ["PVALID", "SPEC_PVAL", "SPEC_DIS", "CONTEXTJ", "CONTEXTO", "DISALLOWED", "UNASSIGNED", "-", "PANIC"];
+
+fn name_index(s: &str) -> u8 {
+    NAMES.iter().position(|n| *n == s).unwrap_or(8) as u8
+}
+
+/// fresh process: T threads walk the SAME code points at the same time (spin barrier every 8 code points), so that the
+/// very first lookups of every code point in the process race with one another; every answer is compared with the
+/// baseline the (single-threaded) parent wrote
+fn lockstep_child(args: &[String]) {
+    use std::sync::atomic::{AtomicUsize, Ordering};
+    use std::sync::Arc;
+    silence_panics();
+    let path = arg_value(args, "--baseline").unwrap_or_else(|| tool_error("--baseline"));
+    let base = Arc::new(std::fs::read(&path).unwrap_or_else(|e| tool_error(&e.to_string())));
+    let n_threads = arg_u64(args, "--threads", 8) as usize;
+    let rot = arg_u64(args, "--rotation", 0) as u32;
+    let n: u32 = 0x110000;
+    let count = Arc::new(AtomicUsize::new(0));
+    let gen = Arc::new(AtomicUsize::new(0));
+    let mut hs = Vec::new();
+    for t in 0..n_threads {
+        let (base, count, gen) = (base.clone(), count.clone(), gen.clone());
+        hs.push(std::thread::spawn(move || {
+            silence_panics();
+            let mut bad = Vec::new();
+            let mut block = 0u32;
+            let mut cp0 = 0u32;
+            while cp0 < n {
+                // spin barrier
+                let g = gen.load(Ordering::Acquire);
+                if count.fetch_add(1, Ordering::AcqRel) + 1 == n_threads {
+                    count.store(0, Ordering::Relaxed);
+                    gen.fetch_add(1, Ordering::Release);
+                } else {
+                    while gen.load(Ordering::Acquire) == g {
+                        std::hint::spin_loop();
+                    }
+                }
+                for k in 0..8u32 {
+                    // the block is walked from a different end by odd threads
+                    let cp = (cp0 + if t % 2 == 0 { k } else { 7 - k } + rot * 0x8000) % n;
+                    let e = ((t as u32 + block) % 4) as usize;
+                    let got = name_index(one(e, cp));
+                    if got != base[cp as usize * 4 + e] && bad.len() < 10 {
+                        bad.push(json!({"order": "lockstep first lookups", "thread": t, "entry": e, "cp": cp, "baseline": NAMES[base[cp as usize * 4 + e] as usize], "got": NAMES[got as usize]}));
+                    }
+                }
+                cp0 += 8;
+                block += 1;
+            }
+            bad
+        }));
+    }
+    let mut problems = Vec::new();
+    for h in hs {
+        problems.extend(h.join().unwrap_or_else(|_| tool_error("lockstep thread died")));
+    }
+    println!("{}", json!({ "lockstep": problems }));
+}
+
 pub fn main(args: &[String]) {
+    if args.iter().any(|a| a == "--lockstep-child") {
+        return lockstep_child(args);
+    }
     silence_panics();
     let seed = arg_u64(args, "--seed", 1);
     let n: u32 = 0x110000;
@@ -109,6 +173,25 @@ pub fn main(args: &[String]) {
             }
         }
     }
+    // aliases INSIDE the code space: a code point asked right after (and right before) the code points that share its low
+    // 8 / 16 / 20 bits - a cache whose tag or index is a truncated code point answers one with the other's value
+    for cp in 0..n {
+        let e = (cp % 4) as usize;
+        for other in [cp & 0xff, cp & 0xffff, cp & 0xfffff, (cp & 0xffff) | 0x100000, (cp & 0xffff) | 0x10000, cp ^ 0x100000, cp ^ 0x10000] {
+            if other == cp || other >= n {
+                continue;
+            }
+            for (first, second) in [(other, cp), (cp, other)] {
+                let _ = one(e, first);
+                let got = one(e, second);
+                calls += 2;
+                if got != baseline[second as usize][e] && problems.len() < 50 {
+                    problems.push(json!({"order": "after a code point with the same low bits", "prev": first, "entry": e, "cp": second,
+                                         "baseline": baseline[second as usize][e], "got": got}));
+                }
+            }
+        }
+    }
     // values above U+10FFFF that alias a real code point when high bits are truncated: asked right after the
     // code point itself; they are not scalar values, so both classes must answer DISALLOWED
     let mut alias_calls = 0u64;
@@ -128,6 +211,41 @@ pub fn main(args: &[String]) {
         }
     }
     calls += alias_calls * 2;
+    // fresh processes whose threads make the first lookups of every code point at the same time
+    let mut lockstep_runs = 0u64;
+    if let Some(dir) = arg_value(args, "--scratch") {
+        std::fs::create_dir_all(&dir).ok();
+        let path = format!("{}/baseline.bin", dir);
+        let mut bytes = Vec::with_capacity(n as usize * 4);
+        for b in baseline.iter() {
+            for e in 0..4 {
+                bytes.push(name_index(b[e]));
+            }
+        }
+        std::fs::write(&path, &bytes).unwrap_or_else(|e| tool_error(&e.to_string()));
+        let exe = std::env::current_exe().unwrap_or_else(|e| tool_error(&e.to_string()));
+        for r in 0..arg_u64(args, "--lockstep", 3) {
+            let threads = [8u64, 4, 16][(r % 3) as usize];
+            let out = std::process::Command::new(&exe)
+                .args(["ordersweep", "--lockstep-child", "--baseline", &path, "--threads", &threads.to_string(), "--rotation", &r.to_string()])
+                .output()
+                .unwrap_or_else(|e| tool_error(&e.to_string()));
+            if !out.status.success() {
+                tool_error(&format!("lockstep child failed: {}", String::from_utf8_lossy(&out.stderr)));
+            }
+            let text = String::from_utf8_lossy(&out.stdout);
+            let last = text.split('\n').filter(|l| !l.is_empty()).last().unwrap_or("");
+            let v: serde_json::Value = serde_json::from_str(last).unwrap_or_else(|_| tool_error("lockstep child output"));
+            for p in v["lockstep"].as_array().cloned().unwrap_or_default() {
+                if problems.len() < 50 {
+                    problems.push(p);
+                }
+            }
+            calls += n as u64 * threads;
+            lockstep_runs += 1;
+        }
+        std::fs::remove_file(&path).ok();
+    }
     // several threads classifying concurrently in different orders
     let base = std::sync::Arc::new(baseline);
     let mut hs = Vec::new();
@@ -154,5 +272,5 @@ pub fn main(args: &[String]) {
     for p in problems.iter() {
         println!("{}", json!({ "problem": p }));
     }
-    println!("{}", json!({"summary": {"calls": calls, "orders": 10, "problems": problems.len()}}));
+    println!("{}", json!({"summary": {"calls": calls, "orders": 11, "lockstep_processes": lockstep_runs, "problems": problems.len()}}));
 }
